@@ -24,12 +24,24 @@ type c03Batch struct {
 	h      hash.Hasher
 	kind   string
 	subset uint64
+	// relaxBuilt: the keys of the batch are related, so that an "invalid" entry built from a neighbour's
+	// signature may in fact be valid; the library's own per-index Verify alone is the reference then
+	relaxBuilt bool
 }
 
 var c03Kinds = []string{"random-g1", "swapped-pair", "plus-minus-d", "three-way", "three-way-weighted", "plus-T3", "malformed", "bad-length", "infinity-sig", "identity-key", "identity-key-infinity-sig", "mixture", "neighbour-key", "compensating-lengths", "plus-minus-T3"}
 
 // c03Build makes a batch of n valid entries and invalidates the positions in `bad` by `kind`.
 func c03Build(r *rand.Rand, n int, bad []int, kind string, h hash.Hasher, hn string) (*c03Batch, error) {
+	return c03BuildKeys(r, n, bad, kind, h, hn, "distinct")
+}
+
+// c03KeyPlans: how the keys of one batch are related to each other ("distinct": independent keys).
+var c03KeyPlans = []string{"same-all", "same-pairs", "opposite-pairs", "same-runs-of-3", "same-far"}
+
+// c03BuildKeys is c03Build with related keys inside the batch: equal keys at neighbouring (or all, or
+// distant) indices, held by the same object, by a second object or in other coordinates, and opposite keys.
+func c03BuildKeys(r *rand.Rand, n int, bad []int, kind string, h hash.Hasher, hn string, plan string) (*c03Batch, error) {
 	msg := mon.RandBytes(r, 1+r.IntN(30))
 	H, err := hashPoint(msg, h, hn)
 	if err != nil {
@@ -38,8 +50,33 @@ func c03Build(r *rand.Rand, n int, bad []int, kind string, h hash.Hasher, hn str
 	b := &c03Batch{msg: msg, h: h, kind: kind}
 	ks := make([]*big.Int, n)
 	pts := make([]ref.G1, n)
+	b.relaxBuilt = plan != "distinct"
 	for i := 0; i < n; i++ {
 		ks[i] = randScalar(r)
+		src := -1 // index whose key entry i repeats
+		switch {
+		case plan == "same-all" && i > 0:
+			src = 0
+		case plan == "same-pairs" && i%2 == 1:
+			src = i - 1
+		case plan == "opposite-pairs" && i%2 == 1:
+			ks[i] = ref.Fr.Sub(big.NewInt(0), ks[i-1])
+		case plan == "same-runs-of-3" && i%3 != 0:
+			src = i - i%3
+		case plan == "same-far" && i >= (n+1)/2:
+			src = i - (n+1)/2
+		}
+		if src >= 0 {
+			ks[i] = ks[src]
+			if (i+src)%3 == 0 {
+				// the very same key object twice in the list
+				b.pks = append(b.pks, b.pks[src])
+				pts[i] = ref.E1.Mul(H, ks[i])
+				b.sigs = append(b.sigs, ref.EncodeG1(pts[i]))
+				b.built = append(b.built, true)
+				continue
+			}
+		}
 		sk := skFromInt(ks[i])
 		if i%3 == 2 {
 			b.pks = append(b.pks, jacobianForm(sk.PublicKey(), r)) // same point, non-affine coordinates
@@ -206,7 +243,7 @@ func c03Check(run *mon.Run, b *c03Batch, label string) {
 				continue
 			}
 			// cross-check individual Verify against what the harness built
-			if ind != b.built[i] && !(b.kind == "neighbour-key" && len(b.pks) == 1) {
+			if ind != b.built[i] && !(b.kind == "neighbour-key" && len(b.pks) == 1) && !(b.relaxBuilt && (b.kind == "swapped-pair" || b.kind == "neighbour-key" || b.kind == "mixture")) {
 				// swapped pairs of *equal* signatures etc. cannot occur with random keys; report
 				run.Violate("C03:individual-vs-built:"+b.kind, fmt.Sprintf("individual Verify at index %d = %v but the harness built it %v", i, ind, b.built[i]), rep)
 			}
@@ -408,8 +445,62 @@ func C03(run *mon.Run) {
 		}
 	}
 	wg.Wait()
+	// related keys inside one batch (the same key at neighbouring, all or distant indices - as one object,
+	// as two objects, in other coordinates - and opposite keys), with errors that cancel between exactly
+	// those entries: a coefficient, a randomised key or a partial result shared between equal keys shows
+	{
+		kinds := []string{"plus-minus-d", "plus-minus-T3", "three-way", "swapped-pair", "random-g1", "mixture", "three-way-weighted"}
+		sizes := []int{2, 3, 4, 6, 9}
+		if !run.Quick() {
+			sizes = append(sizes, 5, 7, 8, 16, 17, 33)
+		}
+		for pi, plan := range c03KeyPlans {
+			for _, n := range sizes {
+				for ki, kind := range kinds {
+					wg.Add(1)
+					sem <- struct{}{}
+					go func(pi int, plan string, n, ki int, kind string) {
+						defer wg.Done()
+						defer func() { <-sem }()
+						defer run.Protect("c03 worker")
+						r := run.Rand(fmt.Sprintf("related-%s-%d-%s", plan, n, kind))
+						// invalid positions: neighbouring pairs / triples first (these share keys under the plans), then all
+						var sets [][]int
+						for i := 0; i+1 < n; i += 2 {
+							sets = append(sets, []int{i, i + 1})
+						}
+						for i := 0; i+2 < n; i += 3 {
+							sets = append(sets, []int{i, i + 1, i + 2})
+						}
+						if n >= 4 {
+							sets = append(sets, []int{0, (n + 1) / 2}, []int{1, 2})
+						}
+						all := make([]int, n)
+						for i := range all {
+							all[i] = i
+						}
+						sets = append(sets, all, nil)
+						if run.Quick() && len(sets) > 5 {
+							sets = append(sets[:3], sets[len(sets)-2:]...)
+						}
+						for _, bad := range sets {
+							b, err := c03BuildKeys(r, n, bad, kind, h, hn, plan)
+							if err != nil {
+								return
+							}
+							c03Check(run, b, fmt.Sprintf("related keys (%s), n=%d, invalid positions %v", plan, n, bad))
+							run.Count("related-keys.cases", 1)
+						}
+						run.Shape(fmt.Sprintf("related-keys|%s|%d|%s", plan, n, kind))
+					}(pi, plan, n, ki, kind)
+				}
+			}
+		}
+		wg.Wait()
+	}
 	// input errors: all-false slice plus the documented class
 	c03Errors(run)
+	run.Require(run.Counter("related-keys.cases") > 0, "related-key batches not driven")
 	run.Require(run.Counter("exhaustive.cases") == int64(len(jobs)), "exhaustive (n, subset, kind) table incomplete")
 }
 
